@@ -11,7 +11,8 @@ import Std.Data.HashMap
     deadlock <ver> <graph>         a shortest schedule into a state where no goroutine can move and some has not returned
                                    → `ok none <n states>` | `ok <tid>,<tid>,…` (one entry per observable step)
 
-  ver    = `w` (module.wait as written) | `f` (fixed)
+  ver    = `w` (module.wait as written) | `f` (fixed) | `s`, `u` (regression variants of the fixed code: Signal instead of
+           Broadcast; unlocked `if !loaded { Lock; Wait }`)
   graph  = `<roots>/<loads>[/<broken>]`: roots = module ids of the BUILD files, one goroutine each; loads = `;`-separated
            load lists of modules 0,1,2,… (`-` = none); broken = modules whose environment cannot be set up,
            e.g. `0,1/2;2;3;-`; with broken module 2: roots `0,1`, loads `2;2;-`, then `/2`
@@ -46,7 +47,8 @@ def parseGraph (s : String) : Option Graph :=
   | _ => none
 
 def parseVer (s : String) : Option Version :=
-  if s == "w" then some .asWritten else if s == "f" then some .fixed else none
+  if s == "w" then some .asWritten else if s == "f" then some .fixed
+  else if s == "s" then some .signalDone else if s == "u" then some .unlockedCheck else none
 
 def commaJoin (xs : List String) : String := if xs.isEmpty then "-" else ",".intercalate xs
 
@@ -109,9 +111,9 @@ def accepts (v : Version) (s : State) (t : Tid) : Ev → Bool
       | .enter d => d == c && (top s t).isSome
       | .walk _ (some c') => c' == c && top s t != some c'
       | _ => false)
-  | .wlocked d => (match v with | .asWritten => s.pc t == .enter d | .fixed => s.pc t == .wlock d)
+  | .wlocked d => (match v with | .asWritten => s.pc t == .enter d | _ => s.pc t == .wlock d)
   | .cyclic d => (match s.pc t with | .walk d' (some c) => d' == d && top s t == some c | _ => false)
-  | .block d => (match v with | .asWritten => s.pc t == .check d && !s.loaded d | .fixed => s.pc t == .sleep d)
+  | .block d => (match v with | .asWritten => s.pc t == .check d && !s.loaded d | _ => s.pc t == .sleep d)
   | .done m ok => (match s.pc t with | .fin r => top s t == some m && (r == .ok) == ok | _ => false)
   | .woke d => s.pc t == .sleep d
   | .fin => (match s.pc t with | .unset _ => (s.stack t).isEmpty | _ => false)
@@ -127,9 +129,14 @@ def agrees (v : Version) (s' : State) (t : Tid) : Ev → Bool
 def applyEvent (v : Version) (P : Project) (s : State) (t : Tid) (e : Ev) : Except String State :=
   let rec go (fuel : Nat) (s : State) : Except String State :=
     if accepts v s t e then
-      match e, v with
-      | .block _, .fixed => .ok s      -- the fixed `wlock` step already went to sleep; the event only confirms it
-      | _, _ =>
+      -- in the fixed code the `wlock` step has already gone to sleep (test and Wait are one critical section); the
+      -- `block` event only confirms it
+      let confirmOnly := match e, v with
+        | .block _, .asWritten => false
+        | .block _, _ => true
+        | _, _ => false
+      if confirmOnly then .ok s
+      else
         match next v P s t with
         | none => .error "not enabled in the model"
         | some s' => if agrees v s' t e then .ok s' else .error s!"the model observes something else (pc {repr (s'.pc t)})"
@@ -176,7 +183,7 @@ def runTrace (v : Version) (g : Graph) (evs : List String) : String :=
 def stateKey (g : Graph) (s : State) : String :=
   let ms := List.range g.loads.length
   let ts := List.range g.roots.length
-  let m := ms.map fun m => s!"{s.registry m}{s.loading m}{s.loaded m}{repr (s.result m)}{s.mlock m}{s.execs m}"
+  let m := ms.map fun m => s!"{s.registry m}{s.loading m}{s.loaded m}{repr (s.result m)}{s.mlock m}{s.execs m}{s.asleep m}"
   let t := ts.map fun t => s!"{repr (s.pc t)}{(s.stack t).map fun f => (f.mod, f.todo.length)}"
   s!"{m}{t}"
 
